@@ -30,7 +30,29 @@ _SLOT = {"accept": None, "n_saves": 0}  # last value passed to save(accept=...) 
 
 
 def _rec(ins, outs, acc):
-    LOG.append(([np.asarray(x) for x in ins], [np.asarray(x) for x in outs], np.asarray(acc)))
+    LOG.append((np.asarray(ins), np.asarray(outs), np.asarray(acc)))
+
+
+def _pack(tree):
+    """All leaves of a trace as one float32 vector (bit-preserving: the leaves
+    of the C18 models are float32 or weakly typed python floats)."""
+    leaves = [jnp.asarray(x) for x in jtu.tree_leaves(tree)]
+    for x in leaves:
+        if x.dtype != jnp.float32:
+            raise RuntimeError(f"c18 harness: non-float32 trace leaf {x.dtype}")
+    return jnp.concatenate([jnp.ravel(x) for x in leaves])
+
+
+def unpack(vec, shapes):
+    """Host side: split a packed vector back into leaves of the given shapes."""
+    out, i = [], 0
+    for shp in shapes:
+        k = int(np.prod(shp, dtype=np.int64))
+        out.append(vec[i : i + k].reshape(shp))
+        i += k
+    if i != vec.shape[0]:
+        raise RuntimeError("c18 harness: packed vector length mismatch")
+    return out
 
 
 def install_save_probe():
@@ -68,13 +90,7 @@ def recorded(kernel):
         acc = _SLOT["accept"]
         if acc is None:
             raise RuntimeError("c18 harness: kernel saved no accept")
-        jax.debug.callback(
-            _rec,
-            [jnp.asarray(x) for x in jtu.tree_leaves(trace)],
-            [jnp.asarray(x) for x in jtu.tree_leaves(out)],
-            jnp.asarray(acc),
-            ordered=True,
-        )
+        jax.debug.callback(_rec, _pack(trace), _pack(out), jnp.asarray(acc), ordered=True)
         return out
 
     return wrapped
